@@ -3,6 +3,9 @@ mod fcmp;
 mod tape;
 mod tens;
 
+mod c03;
+mod c06;
+mod c07;
 mod c14;
 mod c15;
 mod c18;
@@ -63,6 +66,9 @@ fn main() {
     let out_dir = out_dir.unwrap_or_else(|| verif_dir.clone());
     let eng = Engine::new(&id, tier, seed, &verif_dir, &out_dir);
     let code = match id.as_str() {
+        "C03" => c03::run(&eng, replay.as_deref()),
+        "C06" => c06::run(&eng, replay.as_deref()),
+        "C07" => c07::run(&eng, replay.as_deref()),
         "C14" => c14::run(&eng, replay.as_deref()),
         "C15" => c15::run(&eng, replay.as_deref()),
         "C18" => c18::run(&eng, replay.as_deref()),
